@@ -536,6 +536,15 @@ fn main() {
                     scenarios.push(Scenario { stage: Stage::AfterTraffic, victim, inj: vec![f.clone(), s.clone()] });
                 }
             }
+            // every ordered pair of crafted records (peer address) once both sides are connected
+            // and in the middle of the handshake with keys present
+            for stage in [Stage::KeysMidHandshake, Stage::BothConnected] {
+                for f in &firsts {
+                    for s in &firsts {
+                        scenarios.push(Scenario { stage, victim, inj: vec![f.clone(), s.clone()] });
+                    }
+                }
+            }
         }
     }
     let results: Vec<(Scenario, Option<Obs>)> = scenarios.par_iter().map(|sc| (sc.clone(), run(Some(sc), seed))).collect();
